@@ -5,6 +5,7 @@ import (
 	"math"
 	"math/big"
 	"testing"
+	"verif/harness/internal/tape"
 
 	"go.1password.io/spg"
 	"pgregory.net/rapid"
@@ -187,6 +188,40 @@ func TestC06(t *testing.T) {
 		}
 		return c06WL{w}
 	}, c06RunWL)
+	// long character recipes with requirements (far beyond enumeration, counts
+	// beyond 2^1024 included): whatever the distribution, no password can be
+	// less likely than one in the number of strings the recipe allows, so the
+	// reported entropy must not exceed log2 of that number (exact count)
+	ev.Check(t, "c06_long_char_bound", ev.N(800, 8000), func(t *rapid.T) c06Char {
+		sp := gen.CharSpec(t, gen.CharOpts{MaxLen: 500, MinLen: 40, MaxReq: 3})
+		return c06Char{Spec: sp, Key: rapid.Uint64().Draw(t, "key")}
+	}, func(c c06Char) error {
+		sp := c.Spec
+		if rf, b := sp.Feasibility(spg.MaxTrials, spg.MaxFailRate); rf || b {
+			return &ev.Skip{Why: "refused"}
+		}
+		cnt := sp.CountIE()
+		if cnt.Sign() <= 0 {
+			return &ev.Skip{Why: "nothing valid"}
+		}
+		r := toRecipe(sp)
+		ent := r.Entropy()
+		bound := oracle.Log2Big(cnt)
+		if math.IsNaN(float64(ent)) || float64(ent) > bound+4*oracle.Ulp32(bound)+1e-6 {
+			return fmt.Errorf("Entropy() = %v, but the recipe allows only 2^%.4f strings (Length %d, alphabet %d)", ent, bound, sp.Length, len(sp.AlphabetSet()))
+		}
+		o := callRaw(&tape.Tape{TailKey: c.Key | 1, Cap: 1 << 24}, r.Generate)
+		if o.Pw != nil && math.Float32bits(o.Pw.Entropy) != math.Float32bits(ent) {
+			return fmt.Errorf("a returned Password carries Entropy %v, the recipe reports %v", o.Pw.Entropy, ent)
+		}
+		if len(sp.Required()) > 0 {
+			ev.NonTrivial(fmt.Sprintf("longchar|%+v", sp))
+		}
+		if bound > 1024 {
+			ev.Class("count_beyond_2^1024")
+		}
+		return nil
+	})
 	// the entropy of a long recipe claims 2^H equally likely outcomes; every
 	// outcome the claim counts must be reachable (support check, see support_test.go)
 	ev.Check(t, "c06_long_support", ev.N(24, 240), func(t *rapid.T) supWL {
